@@ -612,6 +612,34 @@ func c10ConcScenarios() []concScenario {
 			}
 			seen[call.Op] = true
 			op := call.Op
+			// an outage that lasts: the request was served once while storage was healthy, then EVERY call of the operation
+			// fails; two requests arrive at the same time. Both need the operation, so both must fail closed - also the one
+			// that (in a changed tree) waits for the other one's lookup instead of asking storage itself.
+			out = append(out, concScenario{
+				Name: sc.Name + " || " + sc.Name + " [after a success, " + op + " fails from now on]",
+				Build: func() (*world.World, []func() *world.Reply) {
+					w, r0 := sc.Build()
+					w.Do(r0)
+					_, r1 := sc.Build()
+					_, r2 := sc.Build()
+					w.Store.FaultFromNowOn(op, world.FaultError)
+					return w, []func() *world.Reply{func() *world.Reply { return w.Do(r1) }, func() *world.Reply { return w.Do(r2) }}
+				},
+				Judge: func(w *world.World, reps []*world.Reply, _ *sched.Exec) []concFinding {
+					var fs []concFinding
+					for t, rep := range reps {
+						fired := c10FiredOf(rep.Calls)
+						if len(fired) == 0 {
+							fired = []string{op + "#1=" + world.FaultError} // it needs the operation, and the operation is down
+						}
+						o := c10JudgeFired(sc, rep, fired)
+						for _, c := range o.Clauses {
+							fs = append(fs, concFinding{Clause: c, Thread: t, Detail: fmt.Sprint(o.Detail)})
+						}
+					}
+					return fs
+				},
+			})
 			out = append(out, concScenario{
 				Name: sc.Name + " || " + sc.Name + " [one failing " + op + "]",
 				Build: func() (*world.World, []func() *world.Reply) {
